@@ -102,7 +102,7 @@ class Facet(object):
         self.classify = classify or (lambda case: ())
         self.exhaustive = exhaustive          # bool or {'quick':..,'thorough':..}
         self.distinct = distinct              # cases distinct by construction (skip hashing)
-        self.shards = shards or {"quick": 4, "thorough": 16}
+        self.shards = shards or {"quick": 8, "thorough": 16}
         self.rule = rule
         self.suppress_too_slow = suppress_too_slow
         self.max_fail_per_sig = max_fail_per_sig
